@@ -45,6 +45,8 @@ class VUnit:
         self.loops = {}       # (fn, n) -> [lines]
         self.proofs = []      # (fn, after, [lines])   after = stmt | BODY_START | LOOP_START#n | LOOP_END#n | BLOCK:<stmt opening a block>
         self.decisive_loops = False
+        self.features = []       # crate features the generated file needs (e.g. allocator_api for an assume_specification on Vec<T, A>)
+        self.opaque_blocks = []  # (fn, opener line, call): E8
         self.loop_iter = {}   # (fn, n) -> ghost iterator name for a `for` loop
         self.opaque = []      # (fn, expr, call): E6
         self.obligations = {}  # name -> meaning
@@ -98,6 +100,10 @@ class VUnit:
                 # `//@decisive loops`: in this unit the loop body is checked against an explicit step function by a lemma call, so a
                 # failing pre/postcondition inside the function with the loop is a refutation of the step, not a lost invariant guess
                 self.decisive_loops = (rest == "loops")
+            elif key == "feature":
+                self.features.append(rest)
+            elif key == "opaqueblock":
+                self.opaque_blocks.append((kv["fn"], kv["opener"].strip(), kv["call"]))
             elif key == "opaque":
                 self.opaque.append((kv["fn"], kv["expr"], kv["call"]))
             elif key == "obligation":
@@ -410,6 +416,18 @@ def compose(unit, outdir):
                     break
                 endp = _match_paren(body2, mm.end() - 1)
                 body2 = body2[:mm.start()] + "__fmt()" + body2[endp:]
+        # E8: the body of the block opened by the given line (a match arm, typically) is replaced by one call to an external function
+        # declared with a trusted specification in the spec file; whatever is inside that block is dropped, the rest of the function is kept
+        for (fn_, opener, call) in unit.opaque_blocks:
+            if fn_ != key:
+                continue
+            bl_ = body2.split("\n")
+            idx_ = [i for i, l in enumerate(bl_) if l.strip() == opener]
+            if len(idx_) != 1 or not opener.endswith("{"):
+                raise Undecided(f"lost anchor: {len(idx_)} block openers <<{opener}>> in fn {key}")
+            off_ = sum(len(l) + 1 for l in bl_[:idx_[0]]) + len(bl_[idx_[0]].rstrip()) - 1
+            end_ = _match_paren(body2, off_)
+            body2 = body2[:off_ + 1] + "\n" + call + "\n" + body2[end_ - 1:]
         # E6: an expression Verus has no syntax for (iterator adapters, closures) is replaced, verbatim-matched up to white space,
         # by a call to an external function declared (with a trusted specification) in the spec file. What is dropped is listed.
         for (fn_, expr, call) in unit.opaque:
@@ -494,6 +512,7 @@ def compose(unit, outdir):
         d = difflib.unified_diff(orig.split("\n"), text.split("\n"), f"repo:{f}::{key}", f"verified::{key}", lineterm="", n=1)
         diffs.append("\n".join(d))
     parts = ["// GENERATED on every run by tools/verus_run.py from /repo and " + os.path.relpath(unit.path, VERIF),
+             *[f"#![feature({ft})]" for ft in unit.features],
              "use vstd::prelude::*;", "verus! {", ""]
     parts += consts + [""] + structs + [""]
     for impl, items in impls.items():
